@@ -152,6 +152,30 @@ func c17(c *Ctx) {
 			}
 		}
 	}
+	// the restore replaces the sessions and the last-processed mark in one critical section: while Unmarshal assigns
+	// lastProcessed it holds sessionsMu for writing. (A mark that jumps ahead before the sessions are loaded makes every
+	// look-up of a session the snapshot contains answer "no such session" in between.)
+	if um := c.P.Func("ircserver.(*IRCServer).Unmarshal"); um != nil && um.Body() != nil {
+		ug := c.Graph(um)
+		ulf := c.lockFlow(um, ug, lockSet{})
+		nLP := 0
+		for _, v := range ug.Nodes() {
+			as, ok := v.Node.(*ast.AssignStmt)
+			if !ok {
+				continue
+			}
+			for _, l := range as.Lhs {
+				if fv, _ := lhsField(um.Info(), l); fv == lp {
+					nLP++
+					r.Check(ulf.must[v.ID]["IRCServer.sessionsMu"] == "W", "C17.Y1", um.Name(), "lastProcessed is restored in the critical section that restores the sessions", c.P.Pos(as.Pos()), "lockset "+ulf.must[v.ID].String(),
+						"Unmarshal sets the last-processed mark without holding sessionsMu: between this and the loading of the sessions a look-up of a session that the snapshot contains is answered 'no such session' (the mark is already past its id, the table does not have it yet) — the client gives up a live session")
+				}
+			}
+		}
+		if nLP == 0 {
+			r.Break("C17.Y1: Unmarshal does not assign lastProcessed")
+		}
+	}
 	allowedW := map[string]bool{"ircserver.(*IRCServer).SetLastProcessed": true, "ircserver.(*IRCServer).Unmarshal": true}
 	for _, w := range c.writersOf(lp) {
 		r.Check(allowedW[w.Name()], "C17.Y1", w.Name(), "writes IRCServer.lastProcessed", c.P.Pos(c.funcFlow(w).writePos[lp]), "expected writer", "unexpected writer of lastProcessed")
@@ -292,10 +316,14 @@ func c17(c *Ctx) {
 	if sess != nil {
 		isSession := func(fn *types.Func, _ *ast.CallExpr) bool { return fn == sess.Obj }
 		allowed := map[string]bool{"api.(*HTTP).sessionOrProxy": true, "api.(*HTTP).handleGetMessages": true}
+		var otherCallers []*load.FuncInfo
 		for _, fi := range c.P.AllFuncs {
 			for _, call := range callsIn(fi, isSession) {
-				r.Check(allowed[fi.Name()], "C17.Y2", fi.Name(), "caller of api.session", c.P.Pos(call.Pos()), "one of the two mapped callers",
-					"a new caller of api.session maps its errors to a status on its own")
+				if allowed[fi.Name()] {
+					r.Ok("C17.Y2", fi.Name(), "caller of api.session", c.P.Pos(call.Pos()), "one of the two callers with rules of their own (below)")
+				} else {
+					otherCallers = append(otherCallers, fi)
+				}
 			}
 		}
 		isNYS := func(info *types.Info, e ast.Expr) (bool, bool) { // (is comparison with NYS, equality sense)
@@ -322,6 +350,49 @@ func c17(c *Ctx) {
 				}
 			}
 			return false
+		}
+		// any other caller of api.session maps the look-up error to a status by itself: wherever it answers 404 after the
+		// call, "not yet seen" has been excluded (the error was compared unequal to it, or is nil)
+		for _, fi := range otherCallers {
+			info := fi.Info()
+			g := c.Graph(fi)
+			for _, call := range callsIn(fi, isSession) {
+				cv := g.VertexOf(call)
+				var eobj types.Object
+				if as, ok := g.V[cv].Node.(*ast.AssignStmt); ok && len(as.Lhs) == 2 {
+					if id, ok := as.Lhs[1].(*ast.Ident); ok && id.Name != "_" {
+						eobj = astx.Obj(info, id)
+					}
+				}
+				if eobj == nil {
+					r.Fail("C17.Y2", fi.Name(), "caller of api.session keeps the look-up error", c.P.Pos(call.Pos()), "the error of api.session is discarded: 'no such session' and 'not yet seen' cannot be told apart")
+					continue
+				}
+				reach := g.Reach(cv, nil, nil)
+				n404 := 0
+				for _, x := range g.V {
+					if !reach[x.ID] || x.ID == cv || !is404(info, x) {
+						continue
+					}
+					n404++
+					excluded := false
+					for _, f := range g.FactsAt(x.ID) {
+						if ok, eq := isNYS(info, f.Expr); ok && f.Tag == nil && eq != f.Val {
+							excluded = true
+						}
+						if e2, isNil, ok := nilCompare(info, f); ok && isNil {
+							if id, ok := ast.Unparen(e2).(*ast.Ident); ok && astx.Obj(info, id) == eobj {
+								excluded = true
+							}
+						}
+					}
+					r.Check(excluded, "C17.Y2", fi.Name(), "404 only where 'not yet seen' is excluded", c.P.Pos(x.Node.Pos()), "dominated by err != ErrSessionNotYetSeen (or err == nil)",
+						"a caller of api.session answers 404 on a path on which the session may merely not have been seen yet: a lagging node tells a client its live session is gone")
+				}
+				if n404 == 0 {
+					r.Ok("C17.Y2", fi.Name(), "caller of api.session answers no 404", c.P.Pos(call.Pos()), "no http.Error(…, 404) reachable from the call")
+				}
+			}
 		}
 		// the callers compare the error by identity, so session() must hand GetAuth's error on unwrapped
 		{
@@ -690,8 +761,15 @@ func c17(c *Ctx) {
 			if !ok || astx.FieldSel(info, sel) != field {
 				return false
 			}
-			// key is NickToLower(s.Nick)
-			kc, ok := ast.Unparen(call.Args[1]).(*ast.CallExpr)
+			// key is NickToLower(s.Nick), possibly held in a local that was computed once (a stable alias, or a local with
+			// that single definition which nothing in the function reassigns)
+			keyExpr := astx.Expand(info, call.Args[1])
+			if kid, isID := keyExpr.(*ast.Ident); isID {
+				if d := uniqueDef(info, dsl.Node(), kid); d != nil {
+					keyExpr = ast.Unparen(d)
+				}
+			}
+			kc, ok := keyExpr.(*ast.CallExpr)
 			if !ok || len(kc.Args) != 1 {
 				return false
 			}
